@@ -585,7 +585,42 @@ type c11CramBlock struct {
 	contentID         int32
 	compSize, rawSize int32 // -2: derive from data
 	data              []byte
+	plain             []byte // method 1 (gzip): the uncompressed content, when the generator edits it
 	badCRC            bool
+}
+
+// content is the uncompressed content of the block as the generator knows it.
+func (blk *c11CramBlock) content() []byte {
+	if blk.plain != nil {
+		return blk.plain
+	}
+	return blk.data
+}
+
+// setLText overwrites the leading int32 (the header text length of a file header block); a gzip block
+// is compressed again, and the CRC32s are computed at encoding time, so the decoder reaches the field.
+func (blk *c11CramBlock) setLText(v int32) {
+	p := blk.content()
+	if len(p) < 4 {
+		return
+	}
+	binary.LittleEndian.PutUint32(p, uint32(v))
+	if blk.plain != nil {
+		blk.data = c11Gzip(p)
+	}
+}
+
+// c11ManyRefs is a header text with n @SQ lines and the matching reference list.
+func c11ManyRefs(n int) (string, [][2]interface{}) {
+	var sb strings.Builder
+	sb.WriteString("@HD\tVN:1.6\tSO:unknown\n")
+	refs := make([][2]interface{}, n)
+	for i := range refs {
+		name := fmt.Sprintf("r%d", i)
+		refs[i] = [2]interface{}{name, i%7 + 1}
+		fmt.Fprintf(&sb, "@SQ\tSN:%s\tLN:%d\n", name, i%7+1)
+	}
+	return sb.String(), refs
 }
 
 type c11CramContainer struct {
@@ -720,7 +755,7 @@ func c11CramSeed() []c11CramContainer {
 				{method: 0, typ: 5, contentID: 6, compSize: -2, rawSize: -2, data: []byte("core")},
 			}},
 		{length: -2, refID: -1, nBlocks: 1, landmarksN: -2,
-			blocks: []c11CramBlock{{method: 1, typ: 0, compSize: -2, rawSize: int32(len(hdr)), data: gz}}},
+			blocks: []c11CramBlock{{method: 1, typ: 0, compSize: -2, rawSize: int32(len(hdr)), data: gz, plain: hdr}}},
 	}
 }
 
